@@ -259,7 +259,16 @@ class SSeq:
         if name == "append":
             if self.iterating:
                 ex.ctx.obligation("no-mutation-during-iteration", False)
-            if isinstance(args[0], (tuple, list)) or not (isinstance(args[0], int) or (z3.is_expr(args[0]) and z3.is_int(args[0]))):
+            nonint = isinstance(args[0], (tuple, list)) or not (isinstance(args[0], int) or (z3.is_expr(args[0]) and z3.is_int(args[0])))
+            if getattr(self, "plain", None) is not None or (nonint and z3.is_int_value(z3.simplify(self.length_t)) and z3.simplify(self.length_t).as_long() == 0):
+                # a list that never held design indices (a trace / history of records): kept as a plain Python list;
+                # only append, len and constant indexing are modelled on it
+                if getattr(self, "plain", None) is None:
+                    self.plain = []
+                self.plain = self.plain + [args[0]]
+                self.length_t = z3.IntVal(len(self.plain))
+                return None
+            if nonint:
                 raise Unsupported("append of a non-integer (%s) to an index list" % type(args[0]).__name__)
             x = V.Z(args[0])
             if not z3.is_int(x):
@@ -274,15 +283,23 @@ class SSeq:
         raise Unsupported("list method " + name)
 
     def getitem(self, ex, st, idx):
+        if getattr(self, "plain", None) is not None:
+            if isinstance(idx, int) and -len(self.plain) <= idx < len(self.plain):
+                return self.plain[idx]
+            raise Unsupported("symbolic index into a list of records")
         i = V.Z(idx)
         st.pc.extend(self.facts)
         ex.ctx.obligation("no-raise:IndexError", z3.And(i >= 0, i < self.length_t))
         return z3.Select(self.elems, i)
 
     def symbolic_for(self, ex, st, stmt, enumerate_=False):
+        if getattr(self, "plain", None) is not None:
+            raise Unsupported("iteration over a list of records")
         return loop_over(ex, st, stmt, SeqSource([self], enumerate_))
 
     def to_list(self, ex, st):
+        if getattr(self, "plain", None) is not None:
+            raise Unsupported("copy of a list of records")
         return self
 
 
@@ -837,6 +854,10 @@ class IndexMap:
         self.attrs = attrs
 
     def getitem(self, ex, st, idx):
+        if getattr(self, "plain", None) is not None:
+            if isinstance(idx, int) and -len(self.plain) <= idx < len(self.plain):
+                return self.plain[idx]
+            raise Unsupported("symbolic index into a list of records")
         i = V.Z(idx)
         ex.ctx.obligation("no-raise:IndexError", z3.And(i >= 0, i < self.n))
         t = self.fn(i)
